@@ -93,7 +93,7 @@ def lc_bits(r, dt, src=None, dst=None):
     full = ReedSolomon1294.generate(body.tobytes(), mask)
     b = bitarray()
     b.frombytes(full)
-    return data_burst(BPTC19696.encode(b), dt, cc, r.choice(DATA_SYNCS))
+    return b
 
 
 def other_burst(r, cc):
